@@ -79,7 +79,7 @@ func c16P2PKH(tag byte) []byte {
 	return append(s, 0x88, 0xac)
 }
 
-var c16TxNames = []string{"coinbase", "plain", "minimal", "token"}
+var c16TxNames = []string{"coinbase", "plain", "minimal", "token", "zerotok"}
 
 // c16BuildTx returns a new, unshared message on every call.
 func c16BuildTx(name string) *wire.MsgTx {
@@ -120,6 +120,13 @@ func c16BuildTx(name string) *wire.MsgTx {
 		tx.LockTime = 1
 		return tx
 	}
+	if raw := c16RawTx(name); raw != nil { // the message wire reads from the byte-level fixture
+		var tx wire.MsgTx
+		if err := tx.Deserialize(bytes.NewReader(raw)); err != nil {
+			panic("C16: wire cannot parse the raw fixture " + name + ": " + err.Error())
+		}
+		return &tx
+	}
 	if strings.HasPrefix(name, "var#") { // distinct small transactions for the large block fixture
 		var k int
 		fmt.Sscanf(name[4:], "%d", &k)
@@ -132,7 +139,34 @@ func c16BuildTx(name string) *wire.MsgTx {
 	panic("C16: unknown transaction fixture " + name)
 }
 
-var c16BlockNames = []string{"b0", "b1", "b2", "b3", "b3tok", "b3dup"}
+// c16RawTx: fixtures that exist as bytes first.  "zerotok": output 0's script field spells a
+// CashToken prefix (0xef, 32-byte category, bitfield, amount) whose category id is all zero.  wire
+// parses it as token data, but decides "has token data" by the category id when writing, so the
+// message serialises WITHOUT the prefix: these bytes are accepted, and are not the serialisation
+// of the message they produce.  Output 1 is an ordinary token output (round-trips).
+func c16RawTx(name string) []byte {
+	if name != "zerotok" {
+		return nil
+	}
+	var w bytes.Buffer
+	w.Write([]byte{2, 0, 0, 0, 1})
+	h := c16Hash(0xe5)
+	w.Write(h[:])
+	w.Write([]byte{3, 0, 0, 0, 1, 0x51, 0xff, 0xff, 0xff, 0xff, 2})
+	zero := append(append([]byte{wire.PREFIX_BYTE}, make([]byte, 32)...), wire.HAS_AMOUNT, 5)
+	zero = append(zero, c16P2PKH(0x66)...)
+	w.Write([]byte{0xe8, 3, 0, 0, 0, 0, 0, 0, byte(len(zero))})
+	w.Write(zero)
+	cat := c16Hash(0xc9)
+	tok := append(append([]byte{wire.PREFIX_BYTE}, cat[:]...), wire.HAS_AMOUNT, 7)
+	tok = append(tok, c16P2PKH(0x67)...)
+	w.Write([]byte{0x22, 2, 0, 0, 0, 0, 0, 0, byte(len(tok))})
+	w.Write(tok)
+	w.Write([]byte{9, 0, 0, 0})
+	return w.Bytes()
+}
+
+var c16BlockNames = []string{"b0", "b1", "b2", "b3", "b3tok", "b3dup", "b3zerotok"}
 
 var c16BlockTxs = map[string][]string{
 	"b0":    {},
@@ -141,6 +175,8 @@ var c16BlockTxs = map[string][]string{
 	"b3":    {"coinbase", "plain", "minimal"},
 	"b3tok": {"coinbase", "token", "plain"},
 	"b3dup": {"coinbase", "plain", "plain"}, // two distinct messages with equal content
+	// a transaction given at byte level whose bytes are NOT what wire writes back (see c16RawTx)
+	"b3zerotok": {"coinbase", "zerotok", "minimal"},
 	// 300 transactions (index arithmetic beyond one byte); fixed call sequences only, see runC16
 	// 65536 transactions: the CompactSize transaction count needs its 5-byte form
 	"b65536": func() []string {
@@ -267,6 +303,23 @@ type c16Ref struct {
 	hash   chainhash.Hash
 	txSer  [][]byte
 	txHash []chainhash.Hash
+	// raw: the bytes handed to the from-bytes / from-reader constructors when they are not ser
+	// (byte-level fixtures); nil otherwise
+	raw []byte
+}
+
+// input: what the byte constructors are given; trailing: the same followed by bytes that are not
+// part of the block / transaction
+func (r *c16Ref) input(ctor string) []byte {
+	in := r.ser
+	if r.raw != nil {
+		in = r.raw
+	}
+	out := append([]byte{}, in...)
+	if strings.HasSuffix(ctor, "+trailing") {
+		out = append(out, 0xde, 0xad, 0xbe, 0xef, 0x01)
+	}
+	return out
 }
 
 func c16BlockRefOf(m *wire.MsgBlock) *c16Ref {
@@ -297,6 +350,27 @@ func c16Refs() {
 		}
 		for _, n := range c16TxNames {
 			c16TxRefs[n] = c16TxRefOf(c16BuildTx(n))
+			c16TxRefs[n].raw = c16RawTx(n)
+		}
+		for n, txs := range c16BlockTxs { // blocks containing a byte-level transaction: header, count, the transactions' input bytes
+			r, isRaw := c16BlockRefs[n], false
+			if r == nil {
+				continue
+			}
+			raw := append([]byte{}, r.ser[:80]...)
+			var cnt bytes.Buffer
+			wire.WriteVarInt(&cnt, 0, uint64(len(txs)))
+			raw = append(raw, cnt.Bytes()...)
+			for i, t := range txs {
+				if rt := c16RawTx(t); rt != nil {
+					raw, isRaw = append(raw, rt...), true
+				} else {
+					raw = append(raw, r.txSer[i]...)
+				}
+			}
+			if isRaw {
+				r.raw = raw
+			}
 		}
 	})
 }
@@ -329,7 +403,7 @@ func c16SelfTest() {
 	}
 	for n, r := range c16BlockRefs {
 		var m wire.MsgBlock
-		if err := m.Deserialize(bytes.NewReader(r.ser)); err != nil {
+		if err := m.Deserialize(bytes.NewReader(r.input(""))); err != nil {
 			panic("C16 self-test: wire rejects block fixture " + n + ": " + err.Error())
 		}
 		if !bytes.Equal(c16SerBlock(&m), r.ser) || !bytes.Equal(c16PrintBlock(&m), r.print) {
@@ -338,12 +412,15 @@ func c16SelfTest() {
 	}
 	for n, r := range c16TxRefs {
 		var m wire.MsgTx
-		if err := m.Deserialize(bytes.NewReader(r.ser)); err != nil {
+		if err := m.Deserialize(bytes.NewReader(r.input(""))); err != nil {
 			panic("C16 self-test: wire rejects transaction fixture " + n + ": " + err.Error())
 		}
 		if !bytes.Equal(c16SerTx(&m), r.ser) || !bytes.Equal(c16PrintTx(nil, &m), r.print) {
 			panic("C16 self-test: transaction fixture " + n + " does not survive wire decode/encode")
 		}
+	}
+	if zr := c16TxRefs["zerotok"]; bytes.Equal(zr.raw, zr.ser) {
+		panic("C16 self-test: the byte-level fixture round-trips through wire; it no longer exercises non-canonical input")
 	}
 	tok := c16BuildTx("token")
 	if tok.TxOut[0].TokenData.IsEmpty() || !tok.TxOut[0].TokenData.IsValidBitfield() || !tok.TxOut[1].TokenData.IsValidBitfield() {
@@ -459,8 +536,8 @@ func c16BlockMenu(n int) []c16Op {
 var c16TxMenu = []c16Op{{kind: c16OpTHash}, {kind: c16OpTMsgTx}, {kind: c16OpTIndex},
 	{c16OpTSetIndex, 0}, {c16OpTSetIndex, 2}, {c16OpTSetIndex, bchutil.TxIndexUnknown}}
 
-var c16BlockCtors = []string{"NewBlock", "NewBlockFromBytes", "NewBlockFromReader", "NewBlockFromBlockAndBytes"}
-var c16TxCtors = []string{"NewTx", "NewTxFromBytes", "NewTxFromReader"}
+var c16BlockCtors = []string{"NewBlock", "NewBlockFromBytes", "NewBlockFromReader", "NewBlockFromBlockAndBytes", "NewBlockFromBytes+trailing", "NewBlockFromReader+trailing"}
+var c16TxCtors = []string{"NewTx", "NewTxFromBytes", "NewTxFromReader", "NewTxFromBytes+trailing", "NewTxFromReader+trailing"}
 
 // ---------------------------------------------------------------------------------------
 // Implementation state key (private fields, read-only reflection).  A field that no longer
@@ -1037,18 +1114,18 @@ func c16RunBlock(w *mc.W, fixture, ctor string, ops []c16Op, wantKey, sweep bool
 		txHashSeen: make([]*chainhash.Hash, ref.n), slot: make([]uint8, ref.n)}
 	var b *bchutil.Block
 	var err error
-	ser := append([]byte{}, ref.ser...) // the object may keep the slice: give it its own copy
+	ser := ref.input(ctor) // the object may keep the slice: it gets its own copy
 	msg, p := mc.Guard(func() {
 		switch ctor {
 		case "NewBlock":
 			b = bchutil.NewBlock(c16BuildBlock(fixture))
-		case "NewBlockFromBytes":
+		case "NewBlockFromBytes", "NewBlockFromBytes+trailing":
 			b, err = bchutil.NewBlockFromBytes(ser)
 			r.bytesCached = true
-		case "NewBlockFromReader":
+		case "NewBlockFromReader", "NewBlockFromReader+trailing":
 			b, err = bchutil.NewBlockFromReader(bytes.NewReader(ser))
 		case "NewBlockFromBlockAndBytes":
-			b = bchutil.NewBlockFromBlockAndBytes(c16BuildBlock(fixture), ser)
+			b = bchutil.NewBlockFromBlockAndBytes(c16BuildBlock(fixture), append([]byte{}, ref.ser...))
 			r.bytesCached = true
 		default:
 			panic("C16: unknown block constructor " + ctor)
@@ -1175,10 +1252,10 @@ func c16RunTx(w *mc.W, name, ctor string, ops []c16Op, wantKey, sweep bool) (key
 		switch ctor {
 		case "NewTx":
 			t = bchutil.NewTx(c16BuildTx(name))
-		case "NewTxFromBytes":
-			t, err = bchutil.NewTxFromBytes(append([]byte{}, ref.ser...))
-		case "NewTxFromReader":
-			t, err = bchutil.NewTxFromReader(bytes.NewReader(ref.ser))
+		case "NewTxFromBytes", "NewTxFromBytes+trailing":
+			t, err = bchutil.NewTxFromBytes(ref.input(ctor))
+		case "NewTxFromReader", "NewTxFromReader+trailing":
+			t, err = bchutil.NewTxFromReader(bytes.NewReader(ref.input(ctor)))
 		default:
 			panic("C16: unknown transaction constructor " + ctor)
 		}
